@@ -17,6 +17,13 @@ wire is what the socket ACCEPTED during one send_message call), and a long-lived
 keyed Packetizer per cipher x MAC style for 2500 (thorough 20000) packets of generated small
 lengths, every packet checked (state carried across send_message calls).
 
+Concurrent senders: 2-3 real threads call send_message on ONE keyed Packetizer at the same time
+(a transport-thread reply racing user threads), the socket running a generated send script in 3
+of 4 cases (partial writes / not-ready events while another thread wants to write).  The whole
+byte stream the socket accepted is cut the RFC 4253 way by the reference receiver: it must be
+exactly one well-framed packet per send_message call (all clauses below), whatever the order of
+the threads' packets.
+
 Oracle on the raw bytes the socket accepted (one chunk per packet), decoded with the
 independent vlib.refssh receiver keyed from the RFC 4253 7.2 letters:
   total = 4 + packet_length + mac_len(table of the negotiated MAC, 16 for GCM);
@@ -49,9 +56,17 @@ RULE = (
     "senders (class long-lived-sender): for every cipher x MAC style {plain, -96, etm} (quick: 23 suites, MAC of the "
     "style picked by the run seed; thorough: all 72 pairs) ONE keyed Packetizer sends 2500 (thorough 20000) packets of "
     "generated lengths 1..max (max generated 8..64) through send_message, optional zlib, optional send script, every "
-    "packet checked. One case = one (keys, earlier exchanges, role, api, length list). non-trivial = encrypted "
+    "packet checked. Concurrent senders (class concurrent-senders, threads:N, switch-interval:S, "
+    "concurrent-senders+send-partial / +send-notready): 2-3 real threads send 120-400 messages each (bodies up to "
+    "0/8/40/300/3000 bytes) through ONE keyed paramiko peer at the same time under a generated interpreter switch "
+    "interval, generated per-direction suites, socket send script in 3 of 4 cases; the complete byte stream the socket "
+    "accepted must cut into exactly one well-framed packet per send_message call (length field, padding 4..255, block "
+    "alignment, MAC/tag length and value, payload = the next message of the thread named in it; the order between "
+    "threads is free). One case = one (keys, earlier exchanges, role, api, length list) or one (keys, role, thread "
+    "plans, switch interval, send script). non-trivial = encrypted "
     "suite whose uncompressed payload lengths cover all residues 0..bs-1 (enumeration) or contain a length > 4*bs+8 "
-    "(random part) or >= 1000 packets on one sender (long-lived part); distinct by SHA-1 of the case"
+    "(random part) or >= 1000 packets on one sender (long-lived part) or >= 2 threads with >= 2 messages each "
+    "(concurrent part); distinct by SHA-1 of the case"
 )
 
 
@@ -274,6 +289,117 @@ def _measure(sender, ref, keys, dname, api, lengths, seed, residues):
     return bad, i
 
 
+def concurrent_strategy(lo, hi):
+    """2-3 threads sending lo..hi messages each through ONE keyed paramiko peer (one Packetizer, one
+    socket); per-direction suites drawn independently; 3 of 4 cases give the socket a send script."""
+    S = pkt.strategies()
+    X = pktx.strategies()
+    return st.fixed_dictionaries(
+        {
+            "kind": st.just("concurrent"),
+            "role": st.sampled_from(["client", "server"]),
+            "keys": S.keys(),
+            "threads": st.lists(X.thread_plan(lo, hi), min_size=2, max_size=3),
+            "switch": X.switch,
+            "sends": st.one_of(st.just([]), X.sends_on, X.sends_on.map(lambda v: v)),
+        }
+    ).map(pkt.norm_case)
+
+
+def _judge_wire(ref, plans, cipher, mac, compressed):
+    """Cut everything the socket accepted the RFC 4253 way with the reference receiver: it must be
+    exactly one well-framed packet per send_message call (same clauses as _measure), each
+    carrying the next not-yet-seen payload of the thread named in it.  The order in which the
+    threads' packets follow each other is free.  Returns None or (clause, detail)."""
+    bs = _bs(cipher)
+    want_mac = _mac_len(cipher, mac)
+    total = sum(len(p) for p in plans)
+    nxt = [0] * len(plans)
+    for n in range(total):
+        left = ref.pending()
+        try:
+            _seq, got, _pad = ref.rx.next_packet()
+        except R.NeedMore:
+            return "total-length", "packet %d of %d: the wire ends inside a packet (%d bytes left)" % (n, total, left)
+        except R.RefError as e:
+            return "ref-decode:" + "-".join(str(e).split(" ")[:2]), "packet %d of %d, %d wire bytes left: %s" % (n, total, left, e)
+        info = ref.rx.last_info
+        used = left - ref.pending()
+        if used != 4 + info["packet_length"] + want_mac:
+            return "total-length", "packet %d: %d wire bytes != 4 + %d + %d" % (n, used, info["packet_length"], want_mac)
+        if not 4 <= info["padding"] <= 255:
+            return "padding-range", "packet %d: padding %d" % (n, info["padding"])
+        if info["encrypted_span"] % bs:
+            return "block-alignment", "packet %d: encrypted span %d not a multiple of %d" % (n, info["encrypted_span"], bs)
+        if info["packet_length"] != 1 + info["raw_payload_len"] + info["padding"]:
+            return "length-field", "packet %d: packet_length %d != 1 + %d + %d" % (n, info["packet_length"], info["raw_payload_len"], info["padding"])
+        k = got[1] if len(got) > 1 else -1
+        if not 0 <= k < len(plans) or nxt[k] >= len(plans[k]) or got != plans[k][nxt[k]]:
+            return "payload", "packet %d: %d payload bytes that are not the next message of any sender thread" % (n, len(got))
+        if not compressed and info["raw_payload_len"] != len(got):
+            return "length-field", "packet %d: %d payload bytes inside the packet, %d sent" % (n, info["raw_payload_len"], len(got))
+        nxt[k] += 1
+    if ref.pending():
+        return "total-length", "%d wire bytes follow the last of the %d packets" % (ref.pending(), total)
+    return None
+
+
+def execute_concurrent(ctx, case):
+    """case = {"kind": "concurrent", "keys", "role", "threads": [[type, n, max_body, seed], ...],
+    "switch": interpreter switch interval, "sends": send script}.  Real threads: the interleaving
+    is whatever the interpreter produces; the verdict does not depend on it (every packet on the
+    wire is judged on its own, the threads' relative order is free)."""
+    role = case["role"]
+    dname = "c2s" if role == "client" else "s2c"
+    other = "server" if role == "client" else "client"
+    keys = case["keys"]
+    cipher, mac, comp = keys[dname]
+    compressed = comp != "none"
+    fc = pkt.framing_class(cipher, mac) + ("+z" if compressed else "")
+    sender = pkt.PPeer(role, sends=case.get("sends") or ())
+    ref = pkt.RPeer(other)
+    plans = [pktx.thread_payloads(k, plan) for k, plan in enumerate(case["threads"])]
+    bad = None
+    try:
+        if comp == "zlib@openssh.com":
+            sender.auth()
+            ref.auth()
+        why = _key_exchange(ctx, sender, ref, keys)
+        if why:
+            bad = ("newkeys-packet", fc, why)
+        else:
+            errors, hung = pktx.run_concurrent(sender, plans, case["switch"])
+            if hung:
+                bad = ("concurrent-send-hangs", fc, "a sender thread did not finish within %.0f s" % pktx.JOIN_TIMEOUT)
+            for k, e in enumerate(errors):
+                if e is not None and bad is None:
+                    if isinstance(e, pkt.HarnessBug):
+                        raise e
+                    bad = ("concurrent-send-raises", fc, "thread %d: %r [%s]" % (k, e, pkt.exc_bucket(e)))
+        if bad is None:
+            ref.feed(b"".join(sender.drain()))
+            why = _judge_wire(ref, plans, cipher, mac, compressed)
+            if why:
+                bad = ("concurrent-" + why[0], fc, why[1])
+    finally:
+        send_stats = dict(sender.sock.send_stats)
+        sender.close()
+    classes = ["api:send", "concurrent-senders", "threads:%d" % len(plans), "framing:" + pkt.framing_class(cipher, mac), "role:" + role, "comp:" + comp]
+    classes += ["cipher:" + cipher, "mac:" + mac, "switch-interval:%g" % case["switch"], "sender-keyed-in-both-directions"]
+    classes += pkt.asymmetry_classes(keys)
+    sc = pktx.send_classes(send_stats)
+    classes += sc
+    if "send-partial" in sc:
+        classes.append("concurrent-senders+send-partial")
+    if "send-notready" in sc:
+        classes.append("concurrent-senders+send-notready")
+    ctx.case(case, len(plans) >= 2 and all(len(p) >= 2 for p in plans), sorted(classes))
+    if bad:
+        ctx.violation(bad[0], bad[1], case, bad[2])
+        return False
+    return True
+
+
 def _enum_keys(seed, idx, role, cipher, mac, comp, work):
     """K/H for the enumerated part: derived from the run seed and the suite index (generated,
     reproducible); K has its top bit set in every second suite.  The enumerated suite is the
@@ -382,6 +508,20 @@ def run(ctx):
         ).map(pkt.norm_case)
         ctx.explore(lstrat, lambda case: execute(ctx, case), ctx.scale(1, 3), shrink=False, seed_offset=300 + idx)
 
+    # -- concurrent senders: several threads, one Packetizer, one (scripted) socket
+    if not ctx.unknown and not ctx.out_of_time():
+        ctx.assume("concurrent senders: real threads, the interleaving is whatever the interpreter produces under the generated switch interval; every packet on the wire is judged on its own, the oracle does not depend on the interleaving")
+        # collect-then-continue engine: after the first unlisted violation the remaining draws are skipped
+        ctx.explore(concurrent_strategy(120, 400), lambda case: None if ctx.unknown else execute_concurrent(ctx, case), ctx.scale(24, 60), shrink=False, seed_offset=900)
+
 
 def replay(ctx, case):
-    execute(ctx, pkt.norm_case(case))
+    case = pkt.norm_case(case)
+    if case.get("kind") == "concurrent":
+        # real threads: the interleaving that showed the violation is not part of the case; re-run the same
+        # senders up to 25 times (a correct tree passes all of them, the verdict never depends on the interleaving)
+        for _ in range(25):
+            if not execute_concurrent(ctx, case):
+                break
+        return
+    execute(ctx, case)
